@@ -128,7 +128,7 @@ def obligations():
         Xv = a[1]
         ok_args = (len(a) == 10 and kern and a[0] == ("callres", kern[0][1], "self._compute_kernel", kern[0][3], kern[0][4])
                    and kern[0][3] == (Xv, ("var", "y")) and Xv[:1] == ("callres",) and Xv[2] == "validate_data"
-                   and a[2][:1] == ("callres",) and a[2][2] == "np.array"
+                   and a[2][:1] == ("callres",) and a[2][2] in ("np.array", "np.asarray")
                    and a[5][:1] == ("loopvar",) and a[5] not in (g[2][0][2][0], g[2][1][2][0]) and a[6] == _attr(SELF, "max_clusters")
                    and a[7] == g[2][1][2][0] and a[8] == _attr(SELF, "min_samples_leaf"))      # a[7]: the leaf counter of the loop guard
         ob("find_best_split(kernel(X, y), X, array(queue), Y, Z, n_clusters, max_clusters, n_leaves, min_samples_leaf, features)", ok_args)
@@ -157,20 +157,27 @@ def obligations():
             ob("no state change when the best gain is not positive", not body_muts and not any(_on(e, queue) for e in calls))
             continue
         leaf = _attr(bs, "leaf")
-        # left / right
+        # left / right: the samples of the chosen leaf, split by the rule x[feature] <= threshold -- written with index arrays
+        # (np.where + np.setxor1d) or with a boolean mask and its complement, which select the same samples
         wh = [e for e in calls if e[2] == "np.where"]
         sx_ = [e for e in calls if e[2] == "np.setxor1d"]
-        ok_lr = len(wh) == 2 and len(sx_) == 1
+        ok_lr = len(wh) >= 1
+        left = right = None
         if ok_lr:
             li = ("item", ("callres", wh[0][1], "np.where", wh[0][3], wh[0][4]), fx.C(0))
             cond0 = wh[0][3][0]
             ok_lr = cond0 == ("cmp", ("Eq",), (("item", Zt, leaf), fx.C(1)))
-            lw = ("item", ("callres", wh[1][1], "np.where", wh[1][3], wh[1][4]), fx.C(0))
-            cond1 = wh[1][3][0]
-            ok_lr = ok_lr and cond1 == ("cmp", ("LtE",), (("item", Xv, ("tuple", (li, _attr(bs, "feature")))), _attr(bs, "threshold")))
-            left = ("item", li, lw)
-            right = ("callres", sx_[0][1], "np.setxor1d", sx_[0][3], sx_[0][4])
-            ok_lr = ok_lr and sx_[0][3] == (li, left)
+            rule = ("cmp", ("LtE",), (("item", Xv, ("tuple", (li, _attr(bs, "feature")))), _attr(bs, "threshold")))
+            if len(wh) == 2 and len(sx_) == 1:
+                lw = ("item", ("callres", wh[1][1], "np.where", wh[1][3], wh[1][4]), fx.C(0))
+                left = ("item", li, lw)
+                right = ("callres", sx_[0][1], "np.setxor1d", sx_[0][3], sx_[0][4])
+                ok_lr = ok_lr and wh[1][3][0] == rule and sx_[0][3] == (li, left)
+            elif len(wh) == 1 and not sx_:
+                left = ("item", li, rule)
+                right = ("item", li, ("unop", "Invert", rule))
+            else:
+                ok_lr = False
         ob("left = samples of the chosen leaf with x[feature] <= threshold; right = the other samples of the leaf", ok_lr)
         if not ok_lr:
             continue
